@@ -71,7 +71,7 @@ func NewC05(tier string) *C05 {
 		"dep_ok", "dep_disputed", "dep_negfee", "dep_huge", "dep_huge_dec6", "dep_huge_dec24", "dep_zero", "dep_unknown_token", "dep_unknown_chain", "dep_to_hub_short_recv", "dep_negfee_hub",
 		"exec_first", "exec_first_hugefee", "exec_unknown", "valset_event", "logic_event", "prices", "prices_partial", "holders", "observe_far", "prices_extra_name_by_powerless", "holders_by_powerless",
 		"delegate_dup_ext", "delegate_dup_orch", "delegate_fresh",
-		"holders_one_nil", "prices_dup_name", "prices_huge_extra", "prices_nil_value_extra", "prices_negative_extra", "prop_cold_hub", "prop_tokeninfos_empty"}
+		"holders_one_nil", "holders_nil_last_empty_majority", "prices_dup_name", "prices_huge_extra", "prices_nil_value_extra", "prices_negative_extra", "prop_cold_hub", "prop_tokeninfos_empty"}
 	c.Pairs = [][2]string{{"send2", "send70"}, {"send1", "send65"}, {"dep_ok", "send70"}, {"observe_far", "send2"}, {"prices", "exec_first"}, {"reqbatch", "send70"}, {"send70", "reqbatch"}}
 	// a key registration that is rejected (address / orchestrator already in use) or accepted in the middle of a block that
 	// has written many entries, followed by one more write: whatever the registration scanned must not stay open
@@ -495,6 +495,14 @@ func (c *C05) item(in *hub.Instance, ns *c05State, it string, st *engine.Step) {
 			}
 			c.txOutcome(in.DeliverMsg(&oracletypes.MsgPriceClaim{Epoch: epoch, Prices: &oracletypes.Prices{List: list}, Orchestrator: v.Acc.String()}), st)
 		}
+	case "holders_nil_last_empty_majority":
+		// the three large validators honestly report an EMPTY holders list; the validator without oracle power reports
+		// no list at all, last
+		epoch := in.Oracle.GetCurrentEpoch(in.Ctx())
+		for _, v := range c.Vals {
+			c.txOutcome(in.DeliverMsg(&oracletypes.MsgHoldersClaim{Epoch: epoch, Holders: &oracletypes.Holders{}, Orchestrator: v.Acc.String()}), st)
+		}
+		c.txOutcome(in.DeliverMsg(&oracletypes.MsgHoldersClaim{Epoch: epoch, Orchestrator: c.Extra[0].Acc.String()}), st)
 	case "holders_one_nil", "prices_dup_name", "prices_huge_extra", "prices_nil_value_extra", "prices_negative_extra":
 		// a quorum reports as usual; validator A's report is hostile but passes stateless validation
 		epoch := in.Oracle.GetCurrentEpoch(in.Ctx())
